@@ -682,7 +682,7 @@ func c19Gen(t *rapid.T) c19Case {
 	}
 	switch rapid.IntRange(0, 4).Draw(t, "mode") {
 	case 0, 1:
-		return c19Case{Mode: "selector", Table: c19GenTable(t, rapid.IntRange(0, 8).Draw(t, "n"), cfg), Sel: c19GenSelector(t, true)}
+		return c19Case{Mode: "selector", Table: c19GenTable(t, drawCount(t, 0, 8, 30, "n"), cfg), Sel: c19GenSelector(t, true)}
 	case 2:
 		table := c19GenTable(t, rapid.IntRange(1, 6).Draw(t, "n"), cfg)
 		for i := range table {
@@ -695,7 +695,7 @@ func c19Gen(t *rapid.T) c19Case {
 		e := c19GenExpr(t, 3, L)
 		return c19Case{Mode: "algebra", Table: table, Expr: &e}
 	case 3:
-		n := rapid.IntRange(0, 8).Draw(t, "nins")
+		n := drawCount(t, 0, 8, 40, "nins")
 		ins := c19GenTable(t, n, cfg)
 		return c19Case{Mode: "insert", Inserts: ins}
 	default:
@@ -711,6 +711,11 @@ func TestC19(t *testing.T) {
 	st := newStats("C19")
 	defer st.flush()
 	rapidPart(t, c19Prop, st, "rapid", pick(40000, 300000), c19Gen)
+	if t.Failed() {
+		return
+	}
+	// crowded tables: up to 40 insertions / 30 features (sorting more than a dozen entries takes other code paths)
+	rapidLargePart(t, c19Prop, st, pick(2000, 20000), c19Gen)
 	if t.Failed() {
 		return
 	}
